@@ -37,6 +37,8 @@ def urls():
         ('live-number-clear', '/dash/live/synirr/synirr_v1/20.m4v?start=2024-03-01T11:59:00Z', None),
         ('odvod-file', '/dash/odvod/synirr/synirr_v1.mp4', ('synirr', 'synirr_v1')),
         ('odvod-file-big', '/dash/odvod/bbb/bbb_t1.mp4', ('bbb', 'bbb_t1')),
+        # a file with padding boxes between its fragments and an mfra box after the last one
+        ('odvod-file-trailer', '/dash/odvod/syntrk/syntrk_a1.mp4', ('syntrk', 'syntrk_a1')),
         ('mps-number', '/mps/vod/testmps/{ppk}/bbb_v7/2.m4v', None),
         ('vod-number-big', '/dash/vod/bbb/bbb_v7/3.m4v', None),
         # segments that the service post-processes after encoding (corruption rewrites bytes inside mdat, events add boxes)
